@@ -798,6 +798,48 @@ def _grid_sample(inp, grid, mode="bilinear", padding_mode="zeros", align_corners
     return T(out)
 
 
+@handler("argsort")
+def _argsort(x, dim=-1, descending=False, **k):
+    """data-dependent order: insertion sort whose comparisons fork the exploration"""
+    a = _obj(A(x))
+    if a.ndim != 1:
+        raise Unsupported("argsort of a symbolic tensor with more than one dimension")
+    order = []
+    for i in range(len(a)):
+        pos = len(order)
+        for p, j in enumerate(order):
+            before = bool(to_S(a[i]) > to_S(a[j])) if descending else bool(to_S(a[i]) < to_S(a[j]))
+            if before:
+                pos = p
+                break
+        order.insert(pos, i)
+    return torch.tensor(order, dtype=torch.long)
+
+
+@handler("argmax")
+def _argmax(x, dim=None, **k):
+    a = _obj(A(x)).reshape(-1) if dim is None else None
+    if a is None:
+        raise Unsupported("argmax over a dim of a symbolic tensor")
+    best = 0
+    for i in range(1, len(a)):
+        if bool(to_S(a[i]) > to_S(a[best])):
+            best = i
+    return torch.tensor(best)
+
+
+@handler("any")
+def _any(x, *a, **k):
+    arr = np.asarray(A(x)).reshape(-1)
+    return torch.tensor(any(bool(v) for v in arr))
+
+
+@handler("all")
+def _all(x, *a, **k):
+    arr = np.asarray(A(x)).reshape(-1)
+    return torch.tensor(all(bool(v) for v in arr))
+
+
 @handler("index_put_", "index_put")
 def _index_put(x, indices, values, accumulate=False):
     idx = tuple(A(i) for i in indices)
